@@ -1,6 +1,6 @@
 #!/bin/bash
 # Runs /repo's pinned suite with the verif guard OFF and compares the set of passing tests with BASELINE.json.
-cd /repo && GOFLAGS=-mod=mod GOPROXY=off go test -json -vet=off -count=1 -timeout 25m ./... > /tmp/baseline.$$.json 2>/dev/null
+cd ${BASELINE_REPO:-/repo} && GOFLAGS=-mod=mod GOPROXY=off go test -json -vet=off -count=1 -timeout 25m ./... > /tmp/baseline.$$.json 2>/dev/null
 python3 - /tmp/baseline.$$.json <<'P'
 import json,sys
 base=set(json.load(open('/root/.vp/BASELINE.json'))['stable_pass'])
